@@ -61,7 +61,7 @@ type SyncReq struct {
 	Loc     []HashPick `json:"loc,omitempty"`
 	Stop    HashPick   `json:"stop"`
 	SkipSel int        `json:"skip,omitempty"` // index into skipTable
-	// GetBlock: by height (Height is taken modulo best height + 3) and/or by hash
+	// GetBlock: by height (Height is taken modulo best height + 3; 58-63 select boundary heights up to 2^64-1) and/or by hash
 	ByHeight bool `json:"byh,omitempty"`
 	ByHash   bool `json:"byhash,omitempty"`
 	Height   int  `json:"h,omitempty"`
@@ -542,6 +542,10 @@ func (s *syncSeam) requestBlock(v *view, q SyncReq) {
 	hashClass := "none"
 	if q.ByHeight {
 		m.Height = uint64(q.Height) % (v.best.Height + 3)
+		if q.Height >= 58 { // boundary heights far beyond the chain
+			m.Height = []uint64{1 << 32, 1 << 63, ^uint64(0) - 1, ^uint64(0), v.best.Height + 1000, 1<<31 - 1}[q.Height-58]
+			s.w.R.Count("reqs.block_height_huge", 1)
+		}
 	}
 	if q.ByHash {
 		hash, hashClass = s.resolve(v, q.Stop, nil)
